@@ -27,7 +27,7 @@ def run(mid, suite):
             res["suite_passes"] = ok
         for c in m["checks"]:
             t0 = time.time()
-            r = sh(f"cd {VERIF} && timeout -k 5 1200 ./check {c} --tier quick")
+            r = sh(f"cd {VERIF} && VERIF_EVIDENCE_DIR={VERIF}/scratch/mutation_evidence timeout -k 5 1200 ./check {c} --tier quick")
             sigs = [l.strip() for l in r.stdout.splitlines() if l.strip().startswith("signature:")]
             res["checks"][c] = {"exit": r.returncode, "signatures": sigs[:4], "wall_s": round(time.time() - t0, 1)}
         return res
